@@ -197,10 +197,15 @@ RULE = ("scenarios as in C05 (one replica among 1-7 validators, a puppet network
 def run(rep):
     tier, rng = rep.tier, Rng(rep.seed)
     broken = []
-    po = common.proof_obligations(PROP_FILES)
-    po["files"] = PROP_FILES
+    # translator: the replica's state updates and the ORDER of its effects (persist before send) are regenerated from the
+    # source and proved equal to Model/Replica.v (Properties/C05Gen2.v, C05Gen3.v)
+    import rust2coq
+    translator, gen_files = rust2coq.step(rust2coq.REPLICA_STEP, rust2coq.REPLICA_PROPS, broken)
+    po = common.proof_obligations(PROP_FILES + gen_files)
+    po["files"] = PROP_FILES + gen_files
+    rep.cov["translator"] = translator
     if not po["ok"]:
-        broken.append("Coq obligations of Properties/C03.v: " + (po["log_tail"] or str(po["hygiene_problems"] or po["bad_axioms"])))
+        broken.append("Coq obligations of " + ",".join(po["files"]) + ": " + (po["log_tail"] or str(po["hygiene_problems"] or po["bad_axioms"])))
     opts = dict(OPTS, rounds=6 if tier == "quick" else 10)
     # VERIF_C03_N: smaller scenario count for the mutation self-test (short mutation windows)
     n = int(os.environ.get("VERIF_C03_N") or (90 if tier == "quick" else 1000))
